@@ -306,9 +306,18 @@ def stage_nested(ctx: Ctx):
     targets = [''.join(t) for n in range(0, 7) for t in itertools.product('ab', repeat=n)]
     trees = {t: fst.FST('[' + ', '.join(t) + ']', 'expr') for t in targets}
     terms, meta, wterms, wmeta = [], [], [], []
-    for it_no in range(ctx.scale(260, 4000)):
-        items = gen_nitems(rng, rng.choice((1, 2, 2, 3)), rng.choice((1, 2, 3)))
-        if not any(it[0] == 'q' and any(s[0] == 'q' for s in it[4]) for it in items) and rng.random() < 0.7:
+    # deterministic first: repetitions that may be EMPTY (a sub-list of optional items) under a quantifier with a minimum: the minimum counts repetitions, not elements
+    forced = []
+    for (mn, mx) in ((1, None), (1, 2), (2, 3), (3, 3), (2, 2), (0, 2)):
+        for g in (True, False):
+            for sub in ([('q', 0, 1, True, [('e', 'a')])], [('q', 0, 1, True, [('e', 'a')]), ('q', 0, 1, False, [('e', 'b')])], [('q', 0, 2, True, [('e', 'a')])],
+                        [('q', 0, 1, True, [('e', 'a'), ('e', 'b')])], [('q', 0, 1, True, [('e', '.')]), ('q', 0, 1, True, [('e', 'a')])]):
+                for tail in ([], [('e', 'b')], [('e', 'a')]):
+                    forced.append([('q', mn, mx, g, sub)] + tail)
+                    forced.append(tail + [('q', mn, mx, g, sub)])
+    for it_no in range(len(forced) + ctx.scale(260, 4000)):
+        items = forced[it_no] if it_no < len(forced) else gen_nitems(rng, rng.choice((1, 2, 2, 3)), rng.choice((1, 2, 3)))
+        if it_no >= len(forced) and not any(it[0] == 'q' and any(s[0] == 'q' for s in it[4]) for it in items) and rng.random() < 0.7:
             continue
         desc = {'pattern': items}
         try:
@@ -740,6 +749,34 @@ def stage_type_patterns(ctx: Ctx):
                                   {'src': f.src, 'node': cls.__name__, 'field': field, 'pattern_types': repr(tp)[:120], 'formatted_tree': got[0], 'pure_ast': got[1]})
 
 
+def stage_cross_class_backrefs(ctx: Ctx):
+    """a back-reference from a node of one class to a node of ANOTHER class with the same source text (a parameter and the name it binds, an import alias and a use, a with-item
+    and its expression, an expression statement and an equal value): same answer on the formatted tree, on a re-layout and on the pure AST - identical text is not identical structure"""
+    import fst
+    from fst.match import M, MTAG, MModule, MFunctionDef, Marguments, MReturn, MWith, MExpr, MImport, MAssign, MCall, Mkeyword, MImportFrom, MExceptHandler, MTry, MMatch, Mmatch_case, MMatchAs
+    cases = [('def f(a): return a\n', 'def f( a ):\n    return a\n', lambda: MModule(body=[MFunctionDef(args=Marguments(args=[M(p=...)]), body=[MReturn(MTAG('p'))])])),
+             ('with a+b: a+b\n', 'with a+b:\n    a + b\n', lambda: MModule(body=[MWith(items=[M(w=...)], body=[MExpr(MTAG('w'))])])),
+             ('import a\na\n', 'import  a\n(a)\n', lambda: MModule(body=[MImport(names=[M(n=...)]), MExpr(MTAG('n'))])),
+             ('a\nx = a\n', 'a\nx = (a)\n', lambda: MModule(body=[M(s=...), MAssign(value=MTAG('s'))])),
+             ('a\nx = a\n', 'a\nx = (a)\n', lambda: MModule(body=[MExpr(M(s=...)), MAssign(value=MTAG('s'))])),
+             ('f(k)\ng(k=k)\n', 'f( k )\ng(k = k)\n', lambda: MModule(body=[MExpr(MCall(args=[M(v=...)])), MExpr(MCall(keywords=[MTAG('v')]))])),
+             ('from m import a\na\n', 'from m import (a)\na\n', lambda: MModule(body=[MImportFrom(names=[M(n=...)]), MExpr(MTAG('n'))])),
+             ('x = a\nx = a\n', 'x = a\nx=a\n', lambda: MModule(body=[M(s=...), MTAG('s')])),
+             ('def f(a, a2=a): pass\n', 'def f(a, a2 = a): pass\n', lambda: MModule(body=[MFunctionDef(args=Marguments(args=[M(p=...), ...], defaults=[MTAG('p')]))])),
+             ('match a:\n case a: pass\n', 'match a:\n    case a:\n        pass\n', lambda: MModule(body=[MMatch(subject=M(s=...), cases=[Mmatch_case(pattern=MTAG('s'))])]))]
+    for src, relaid, mk in cases:
+        got = {}
+        for route, tgt in (('fst', lambda: fst.FST(src, 'exec')), ('relayout', lambda: fst.FST(relaid, 'exec')), ('ast', lambda: ast.parse(src))):
+            try:
+                got[route] = mk().match(tgt()) is not None
+            except Exception as e:
+                got[route] = f'!{type(e).__name__}: {e}'[:100]
+        ctx.tick(('cross-class-backref', src), 'backref:cross-class')
+        if len({repr(v) for v in got.values()}) != 1:
+            ctx.violation('backref|cross-class|' + '/'.join(f'{k}={v}' for k, v in got.items())[:60], 'a back-reference between nodes of different classes with the same source text answers differently on the formatted tree, a re-layout and the pure AST',
+                          {'src': src, 'relayout': relaid, **got})
+
+
 def run(ctx: Ctx):
     ctx.rule = ('(1) pattern sequences (<=2 items exhaustively sampled, 3 items random; items over {a, b, ., Q(a), Q(.), Q([a;b])} x {*, +, ?, {1,2}} x greedy/lazy) '
                 'x element sequences over {a,b,c} up to length 4 (quick) / 5 (thorough): real matcher vs re.fullmatch (accept + repetition counts) and vs the Coq '
@@ -752,6 +789,7 @@ def run(ctx: Ctx):
     run_guarded(ctx, stage_quantifiers)
     run_guarded(ctx, stage_backrefs)
     run_guarded(ctx, stage_captures)
+    run_guarded(ctx, stage_cross_class_backrefs)
     run_guarded(ctx, stage_nested)
     run_guarded(ctx, stage_history)
     run_guarded(ctx, stage_field_sweep)
